@@ -22,6 +22,7 @@ GENERATORS = [
     ("GenFactsSession.v", "tr_facts:generate_session"),
     ("GenFactsDenoise.v", "tr_facts:generate_denoise"),
     ("GenFactsLaunch.v", "tr_facts:generate_launch"),
+    ("GenFactsCodespeed.v", "tr_facts:generate_codespeed"),
     ("GenIdentity.v", "tr_identity"),
     ("GenPar.v", "tr_par"),
     ("GenUi.v", "tr_ui"),
